@@ -104,6 +104,11 @@ class Script:
                 from pwv import statew
                 cls = getattr(statew, op['wcls'] + '_' + kind)
             kw = dict(op.get('ctor', {}))
+            if kw.get('context') == '<c11-ctx>':
+                # a healthy client's worker inside the very context the faulty requests address
+                self.c11_record('worker-in-ctx')
+                live = getattr(self.d, 'c11_live_ctx', None)
+                kw['context'] = live[1]
             if kind in ('R', 'PR'):
                 if op.get('host') == 'fake':
                     kw['host'] = self.fake_addr
@@ -632,7 +637,9 @@ class Script:
             # needs a registered context first (not recorded)
             self.d.c11_ctx = getattr(self.d, 'c11_ctx', 0) + 1
             cid = 'c11-ctx-%d-%d' % (os.getpid(), self.d.c11_ctx)
-            ctx = RemoteContext(cid, host=addr, target=targets.ctx_a)
+            ctx = RemoteContext(cid, host=addr, target=targets.slow_echo, kwargs={'delay': 0.05})
+            if rtype == 'worker-in-ctx':
+                self.d.c11_live_ctx = (srv._child.pid, cid, ctx)      # stays registered: the replayed requests address it
         S.socket.sendall = rec
         try:
             if rtype == 'worker':
@@ -655,8 +662,6 @@ class Script:
         try:
             if rtype in ('worker', 'pworker', 'worker-in-ctx'):
                 w.terminate(timeout=2)
-            if rtype == 'worker-in-ctx':
-                ctx.wait()
             if rtype == 'ctx-create':
                 w.wait()
         except Exception:  # noqa
